@@ -141,6 +141,8 @@ def main():
         cases = load_corpus(prop) + list(mod.known_witness_cases()) \
             + list(mod.gen_cases(rng, args.tier))
     t_cases = time.time()
+    import pyside
+    covering = pyside.start_cover()
     records, model_err = run_cases(mod, cases, driver_ok, rep)
     if model_err:
         broken.append({"kind": "correspondence", "name": "model driver",
@@ -247,6 +249,10 @@ def main():
         "search_cases": searched,
         "exhaustive": bool(getattr(mod, "EXHAUSTIVE", {}).get(args.tier)),
     }
+    if covering:
+        import cover
+        rep.coverage["impl_line_coverage"] = cover.summarise(
+            pyside.COVER, getattr(mod, "IMPL_FUNCS", None))
     if not ok:
         rep.coverage["discharged"] = 0
     rc = rep.finish("proof")
